@@ -10,7 +10,8 @@
 EXTENDS Integers, Sequences, FiniteSets, TLC, Json, IOUtils
 Obs == ndJsonDeserialize(IOEnv.TRACE)
 Alike(r) == \A i, j \in 1..Len(r.obs) : r.obs[i].verdict = r.obs[j].verdict /\ r.obs[i].out = r.obs[j].out
-SelfContained(r) == r.left = 0 /\ r.pragmas = 1 /\ r.alone = 1 /\ r.twice = 1 /\ r.linked = 1
+\* code = the generated text is exactly the code lines of the closure's files in the emitted order, once each; incs = exactly their system includes
+SelfContained(r) == r.left = 0 /\ r.pragmas = 1 /\ r.alone = 1 /\ r.twice = 1 /\ r.linked = 1 /\ r.code = 1 /\ r.incs = 1
 OkRec(r) == CASE r.k = "alike" -> Alike(r)
               [] r.k = "sf" -> SelfContained(r)
               [] r.k = "hdr" -> r.ok = 1
